@@ -556,7 +556,10 @@ func runC07(c *Ctx) {
 				if !ok || call.Block() != elem.Block() && !elem.Block().Dominates(call.Block()) {
 					continue
 				}
-				if call.Call.StaticCallee() != nil && call.Call.StaticCallee().Parent() == entry || func() bool { _, isClosure := call.Call.Value.Type().Underlying().(*types.Signature); return isClosure && call.Call.StaticCallee() == nil && !call.Call.IsInvoke() }() {
+				if call.Call.StaticCallee() != nil && call.Call.StaticCallee().Parent() == entry || func() bool {
+					_, isClosure := call.Call.Value.Type().Underlying().(*types.Signature)
+					return isClosure && call.Call.StaticCallee() == nil && !call.Call.IsInvoke()
+				}() {
 					args := call.Call.Args
 					if len(args) < 2 || !Derives(args[0], func(v ssa.Value) bool { return v == ssa.Value(elem) }) {
 						continue
